@@ -27,7 +27,8 @@ THEOREMS = ["C20_keywords_lex", "C20_keywords_start", "C20_offered_lexes_outside
 SM_THEOREMS = ["C20_sm_classes_exact", "C20_sm_completion", "C20_sm_placeholders"]
 KNOWN_THEOREMS = ["C20_offered_lexes_refuted", "C20_lexed_offered_refuted",
                   "C20_known_offered_not_lexed_real", "C20_known_lexed_not_offered_real"]
-TRANSLATORS = ["t_tokens", "t_lextables", "t_grammar", "t_ast", "t_completion"]
+TRANSLATORS = ["t_tokens", "t_lextables", "t_grammar", "t_ast", "t_completion", "t_handlers"]
+SOURCE_THEOREMS = ["C20_dispatch_is_source"]    # group outline: props/CompletionSource.v (design/notes-translator-handlers.md)
 # class clause end to end over the models (group symmap, props/C20Pipeline.v): its cone also needs these generated files
 PIPELINE_THEOREMS = ["C20_core_classes", "C20_pipeline_classes", "C20_pipeline_nonvacuous"]
 PIPELINE_TRANSLATORS = ["t_unicode", "t_grammarcert", "t_foldkinds"]
@@ -129,6 +130,13 @@ def run(ctx):
     ctx.cov["discharged"] = ctx.cov.get("discharged", 0) + rp["discharged"]
     ctx.cov["theorems"] = list(ctx.cov.get("theorems", [])) + PIPELINE_THEOREMS
     ctx.cov.setdefault("axioms_per_theorem", {}).update(rp["assumptions"])
+    # the BODY of completion.rs `exec` rendered by t_handlers.py (GenHandlersCompletion.v) == Completion.completion_model
+    rs = vlib.prove("TG.Props.CompletionSource", SOURCE_THEOREMS, ["props/CompletionSource.vo"])
+    fails += G.own_failures(rs["failures"], ["props/CompletionSource.vo"])
+    ctx.cov["obligations"] = ctx.cov.get("obligations", 0) + rs["obligations"]
+    ctx.cov["discharged"] = ctx.cov.get("discharged", 0) + rs["discharged"]
+    ctx.cov["theorems"] = list(ctx.cov.get("theorems", [])) + SOURCE_THEOREMS
+    ctx.cov.setdefault("axioms_per_theorem", {}).update(rs["assumptions"])
     ctx.cov["trusted_base"] = list(ctx.cov.get("trusted_base", [])) + [
         "props/C20Pipeline.v (group symmap; design/notes-indexer-bridge.md): the class clause composed with group scope's indexer model and "
         "builder bridge's pipeline: offered classes = classes declared in the CoreAst (ClassVisit.declared_classes, last declaration wins); "
